@@ -304,10 +304,14 @@ def transpose(score: ScoreLike, interval: Interval) -> ScoreLike:
     # Reset recursion limit to previous value to avoid side effects
     sys.setrecursionlimit(old_recursion_depth)
     if isinstance(score, s.Score):
-        for part in new_score.parts:
-            transpose(part, interval)
+        parts = new_score.parts
     elif isinstance(score, s.Part):
-        for note in score.notes_tied:
+        parts = [new_score]
+    else:
+        parts = []
+    for part in parts:
+        # every note, also the later notes of tie chains
+        for note in part.notes:
             _transpose_note_inplace(note, interval)
     return new_score
 
